@@ -752,12 +752,18 @@ impl InferContext {
         &mut self,
         type_declarations: &crate::ast::program::TypeDeclarationMap,
     ) {
+        // The declarations live in a hash map: walk them in a fixed order (by name), so that what a
+        // constructor name shared by two types refers to does not depend on the hasher's seed.
+        let mut ordered: Vec<(&Symbol, &crate::ast::program::TypeDeclInfo)> =
+            type_declarations.iter().collect();
+        ordered.sort_by(|a, b| a.0.as_str().cmp(b.0.as_str()));
+
         // First pass: Create all UserSum types without recursive wrapping
         // and register type names so that TypeAlias can be resolved
         let mut sum_types: std::collections::HashMap<Symbol, TypeNodeId> =
             std::collections::HashMap::new();
 
-        for (type_name, decl_info) in type_declarations {
+        for (type_name, decl_info) in ordered.iter().copied() {
             let variants = &decl_info.variants;
             let variant_data: Vec<(Symbol, Option<TypeNodeId>)> =
                 variants.iter().map(|v| (v.name, v.payload)).collect();
@@ -775,7 +781,7 @@ impl InferContext {
         }
 
         // Second pass: For recursive types, wrap self-references in Boxed
-        for (type_name, decl_info) in type_declarations {
+        for (type_name, decl_info) in ordered.iter().copied() {
             if !decl_info.is_recursive {
                 continue;
             }
@@ -819,7 +825,7 @@ impl InferContext {
         }
 
         // Register constructors for non-recursive types
-        for (type_name, decl_info) in type_declarations {
+        for (type_name, decl_info) in ordered.iter().copied() {
             if decl_info.is_recursive {
                 continue;
             }
